@@ -266,6 +266,14 @@ fixed("C20", "C20:accepted-config-name-is-dead", "7807a7e",
       [{"kind": "config", "name": "C-A", "may_reject": True}, {"kind": "config", "name": "C-I", "may_reject": True},
        {"kind": "config", "name": "M- ", "may_reject": True}])
 
+fixed("C08", "C08:prefix-then-non-ascii-character", "f1ffaa6",
+      "Escape / an escape-sequence prefix directly followed by a non-ASCII character in one arrival made send() raise "
+      "UnicodeDecodeError and drop the bytes (and the paste being built)",
+      [{"kind": "prefixchar", "paste_threshold": None, "pre": B(b"hello ".hex()), "prefix": B("1b"), "char": B("c3a9"),
+        "post": B(b" world".hex())},
+       {"kind": "prefixchar", "paste_threshold": 8, "pre": B(b"abcdefghijkl".hex()), "prefix": B("1b5b"), "char": B("e282ac"),
+        "post": B(b"xyz".hex())}])
+
 known("C03", "C03:prefix-then-undecodable-byte",
       "get_key raises UnicodeDecodeError for a table-sequence prefix (e.g. ESC) followed by a byte >= 0x80 "
       "that does not decode: ESC + any 8-bit byte under ascii, ESC + a UTF-8 lead/continuation byte under utf-8",
@@ -273,8 +281,10 @@ known("C03", "C03:prefix-then-undecodable-byte",
        {"kind": "node", "encoding": "utf-8", "seq": B("1bc3"), "mode": "curtsies", "full": False},
        {"kind": "stream", "encoding": "utf-8", "data": B("1bc3a9")}],
       "get_key's contract is 'name the whole byte string or ask for more'; it cannot emit the prefix as a "
-      "key and restart at the offending byte, so a repair needs a change of the decoder/Input interface, "
-      "not a small patch")
+      "key and restart at the offending byte, so a repair inside the decoder needs a change of its interface, "
+      "not a small patch. Its only caller in the library, Input.find_key, now does that restart itself (see the fixed "
+      "entry C08:prefix-then-non-ascii-character), so Input.send() no longer raises or loses bytes; get_key called "
+      "directly still raises, which is what this entry records")
 
 out = os.path.join(os.path.dirname(os.path.abspath(__file__)), "known_findings.json")
 with open(out, "w") as f:
